@@ -464,11 +464,22 @@ pub fn expected_outputs(gp: &GenProject) -> Vec<String> {
 }
 
 fn project_case(case: &mut Case, base: &Path) -> CaseResult {
+    // how the command is started (working directory, --config-file spelling): drawn first so that it varies
+    let cli_style = case.ch.below(crate::cli::CLI_STYLES);
+    case.label(&format!("cli-style-{cli_style}"));
     let mut po = ProjectOpts::default();
     po.wild_trivia = true;
     po.plugins = true;
+    po.schema.many_names = true;
+    po.anonymous_extra = true;
+    po.extend_builtin_scalar = true;
     po.doc.merged_key_with_variable_condition = true;
     let gp = gen_project(case, &po);
+    for l in &gp.gs.labels {
+        if *l == "many-names" {
+            case.label("many-names");
+        }
+    }
     let allow_minus_one = case.is_excluded("imported_fragment_in_map");
     let proj = write_project(&gp, base);
     let detail = json!({"config": gp.config, "files": gp.schema_files.iter().chain(gp.op_files.iter()).map(|(p, t)| json!({"path": p, "text": t})).collect::<Vec<_>>()});
@@ -480,7 +491,7 @@ fn project_case(case: &mut Case, base: &Path) -> CaseResult {
         }
         case.label("outputs-overwritten");
     }
-    let run = run_cli(&proj.path(&gp.layout.root), &["generate", "--output-format", "json"]);
+    let run = crate::cli::run_cli_styled(&proj.path(&gp.layout.root), &["generate", "--output-format", "json"], cli_style);
     let res = (|| -> CaseResult {
         if run.crashed() {
             return Err(Failure::new("cli-crashed", format!("generate crashed: {}", run.stderr.lines().find(|l| l.contains("panicked")).unwrap_or("")), json!({"detail": detail, "stderr": run.stderr})));
